@@ -270,7 +270,7 @@ def tlc_trace(module, trace_path, shards=12, xmx="3g", timeout=1800, cfg=None, m
             if mm:
                 m = mm
         for t in tlc_tuples(out):
-            if len(t) > 1 and isinstance(t[1], int) and t[0] in ("MISMATCH", "INFO", "KNOWN", "DRIFT", "DONTCARE", "FOLLOWED"):
+            if len(t) > 1 and isinstance(t[1], int) and t[0] in ("MISMATCH", "INFO", "KNOWN", "DRIFT", "DONTCARE", "FOLLOWED", "SAME"):
                 tuples.append((offsets[i] + t[1], t))
             else:
                 tuples.append((None, t))
